@@ -228,11 +228,16 @@ def body_unit(case):
                 oracle_evals=1, sample=case)
 
 
+ADV_EXCLUDE = ()
+
+
 def plan(tier):
-    return [("runs", 16), ("unit", 8)]
+    return [("runs", 16), ("unit", 8), ("advopts", 16)]
 
 
 def run_part(res, part, tier, seed, shard, nshards):
+    if part == "advopts":
+        return runlevel.adv_sweep(res, PROFILE, tier, seed, shard, nshards, body_run, exclude=ADV_EXCLUDE)
     if part == "runs":
         runlevel.sweep(res, PROFILE if tier == "quick" else dict(PROFILE, maxD=5, extra_budget=(30, 250)), N[tier], seed, shard, nshards, body_run)
     else:
@@ -240,14 +245,14 @@ def run_part(res, part, tier, seed, shard, nshards):
 
 
 def minimise(part, tier, sig, case, seed):
-    if part == "runs":
+    if part in ("runs", "advopts"):
         return runlevel.field_minimise(case, sig, body_run, max_runs=12 if tier == "quick" else 40)
     m = engine.hyp_minimise(unit_cases(), lambda c: any(engine.signature(x) == sig for x in run_unit(c)[0]), 3000, seed)
     return {"case": m or case, "note": "hypothesis shrink" if m else "unminimised"}
 
 
 def replay(part, case):
-    if part == "runs":
+    if part in ("runs", "advopts"):
         return runlevel.replay_body(body_run, case)
     return run_unit(case)[0]
 
